@@ -526,3 +526,296 @@ def demoR := offlineStagesD demoG (fun _ ins => 100 + ins.sum) (fun _ θ ins => 
 
 example : demoR.ps.trained = [3, 1] ∧ (demoR.σ 1).mem = 105 ∧ (demoR.σ 1).st = 110 ∧ (demoR.σ 2).st = 110
     ∧ (demoR.σ 3).mem = 210 ∧ 2 ∈ demoR.ps.included := by decide
+
+
+/-! ### progress and termination of the staging loop
+
+`get_offline_subgraphs` has no fuel: `while trained != offlines`. The model's loop carries
+`nodes.length + 2` units of fuel. For the node list a `Model` holds (topologically sorted) every pass
+trains at least one more offline node, so the loop ends with every offline node trained after at most
+`#offline` passes: the fuel is never exhausted and the `while` loop of the code terminates. -/
+
+/-- `l` lists its nodes parents-first, given that the nodes of `inc` are already available -/
+def TopoL (g : SG) : List Nat → List Nat → Prop
+  | _, [] => True
+  | inc, u :: us => (∀ p ∈ g.parents u, p ∈ inc) ∧ TopoL g (u :: inc) us
+
+/-- dropping nodes that are already available keeps the list parents-first -/
+theorem topoL_filter (g : SG) : ∀ (l A B I : List Nat), (∀ x ∈ A, x ∈ B) → (∀ x ∈ I, x ∈ B) → TopoL g A l →
+    TopoL g B (l.filter (fun v => !I.contains v)) := by
+  intro l
+  induction l with
+  | nil => intro A B I _ _ _; trivial
+  | cons u us ih =>
+    intro A B I hAB hIB h
+    by_cases hu : u ∈ I
+    · rw [List.filter_cons_of_neg (by simp [hu])]
+      apply ih (u :: A) B I _ hIB h.2
+      intro x hx
+      rcases List.mem_cons.mp hx with rfl | hx'
+      · exact hIB _ hu
+      · exact hAB x hx'
+    · rw [List.filter_cons_of_pos (by simp [hu])]
+      refine ⟨fun p hp => hAB p (h.1 p hp), ?_⟩
+      apply ih (u :: A) (u :: B) I _ _ h.2
+      · intro x hx
+        rcases List.mem_cons.mp hx with rfl | hx'
+        · exact List.mem_cons_self
+        · exact List.mem_cons_of_mem _ (hAB x hx')
+      · intro x hx; exact List.mem_cons_of_mem _ (hIB x hx)
+
+theorem topoL_append (g : SG) : ∀ (pre l B : List Nat), TopoL g B (pre ++ l) →
+    TopoL g B pre ∧ TopoL g (pre.reverse ++ B) l := by
+  intro pre
+  induction pre with
+  | nil => intro l B h; exact ⟨trivial, by simpa using h⟩
+  | cons u us ih =>
+    intro l B h
+    have h' : (∀ p ∈ g.parents u, p ∈ B) ∧ TopoL g (u :: B) (us ++ l) := h
+    have := ih l (u :: B) h'.2
+    refine ⟨⟨h'.1, this.1⟩, ?_⟩
+    simpa [List.reverse_cons, List.append_assoc] using this.2
+
+theorem ready_of {g : SG} {inc : List Nat} {v : Nat} (h : ∀ p ∈ g.parents v, p ∈ inc) : ready g inc v = true := by
+  simp only [ready, Bool.or_eq_true, List.isEmpty_iff, List.all_eq_true, List.contains_eq_mem, decide_eq_true_eq]
+  exact Or.inr h
+
+/-- a prefix of the pass without untrained offline nodes, listed parents-first: every node of it is included, in
+    order, and nothing is trained -/
+theorem pass_prefix (g : SG) : ∀ (pre : List Nat) (s : PassSt), TopoL g s.included pre →
+    (∀ u ∈ pre, ¬ (g.offline u = true ∧ u ∉ s.trained)) →
+    (pass g pre s).included = pre.reverse ++ s.included ∧ (pass g pre s).trained = s.trained := by
+  intro pre
+  induction pre with
+  | nil => intro s _ _; exact ⟨by simp [pass], rfl⟩
+  | cons u us ih =>
+    intro s ht hno
+    have ht' : (∀ p ∈ g.parents u, p ∈ s.included) ∧ TopoL g (u :: s.included) us := ht
+    have hr := ready_of ht'.1
+    have hc : (g.offline u && !s.trained.contains u) = false := by
+      have := hno u List.mem_cons_self
+      cases ho : g.offline u
+      · simp
+      · simp only [ho, true_and, not_not] at this
+        simp [this]
+    have hstep : passStep g s u = { s with included := u :: s.included,
+                                           sub := if g.isExit u then s.sub else s.sub ++ [u] } := by
+      unfold passStep
+      rw [if_pos hr, if_neg (by rw [hc]; simp)]
+    simp only [pass, List.foldl_cons]
+    rw [hstep]
+    have := ih { s with included := u :: s.included, sub := if g.isExit u then s.sub else s.sub ++ [u] } ht'.2
+      (fun w hw => hno w (List.mem_cons_of_mem _ hw))
+    simp only [pass] at this
+    refine ⟨?_, this.2⟩
+    rw [this.1]; simp [List.reverse_cons, List.append_assoc]
+
+theorem passStep_tr_mono (g : SG) (s : PassSt) (v w : Nat) (h : w ∈ s.trained) : w ∈ (passStep g s v).trained := by
+  unfold passStep
+  split
+  · split
+    · exact List.mem_cons_of_mem _ h
+    · exact h
+  · exact h
+
+theorem pass_tr_mono (g : SG) : ∀ (todo : List Nat) (s : PassSt) (w : Nat), w ∈ s.trained → w ∈ (pass g todo s).trained := by
+  intro todo
+  induction todo with
+  | nil => intro s w h; exact h
+  | cons v vs ih =>
+    intro s w h
+    simp only [pass, List.foldl_cons]
+    exact ih _ w (passStep_tr_mono g s v w h)
+
+theorem passStep_trains (g : SG) (s : PassSt) (v : Nat) (hr : ready g s.included v = true)
+    (hc : (g.offline v && !s.trained.contains v) = true) : v ∈ (passStep g s v).trained := by
+  unfold passStep
+  rw [if_pos hr, if_pos hc]
+  exact List.mem_cons_self
+
+/-- **Progress.** In a pass over a parents-first list, the first offline node that is not trained yet gets trained. -/
+theorem pass_trains_first (g : SG) (pre post : List Nat) (v : Nat) (s : PassSt)
+    (ht : TopoL g s.included (pre ++ v :: post))
+    (hno : ∀ u ∈ pre, ¬ (g.offline u = true ∧ u ∉ s.trained))
+    (hoff : g.offline v = true) (hv : v ∉ s.trained) :
+    v ∈ (pass g (pre ++ v :: post) s).trained := by
+  have hsplit := topoL_append g pre (v :: post) s.included ht
+  have hp := pass_prefix g pre s hsplit.1 hno
+  have hvt : (∀ p ∈ g.parents v, p ∈ pre.reverse ++ s.included) ∧ _ := hsplit.2
+  simp only [pass, List.foldl_append, List.foldl_cons]
+  apply pass_tr_mono
+  have hr : ready g (List.foldl (passStep g) s pre).included v = true := by
+    apply ready_of
+    have : (List.foldl (passStep g) s pre).included = pre.reverse ++ s.included := hp.1
+    rw [this]; exact hvt.1
+  have htr : (List.foldl (passStep g) s pre).trained = s.trained := hp.2
+  have hc : (g.offline v && !(List.foldl (passStep g) s pre).trained.contains v) = true := by
+    rw [htr]; simp [hoff, hv]
+  exact passStep_trains g _ v hr hc
+
+theorem exists_first (P : Nat → Prop) [DecidablePred P] : ∀ (l : List Nat), (∃ x ∈ l, P x) →
+    ∃ pre v post, l = pre ++ v :: post ∧ (∀ u ∈ pre, ¬ P u) ∧ P v := by
+  intro l
+  induction l with
+  | nil => intro h; obtain ⟨x, hx, _⟩ := h; simp at hx
+  | cons a as ih =>
+    intro h
+    by_cases ha : P a
+    · exact ⟨[], a, as, rfl, by simp, ha⟩
+    · obtain ⟨x, hx, hpx⟩ := h
+      rcases List.mem_cons.mp hx with rfl | hx'
+      · exact absurd hpx ha
+      · obtain ⟨pre, v, post, hl, hpre, hv⟩ := ih ⟨x, hx', hpx⟩
+        refine ⟨a :: pre, v, post, by simp [hl], ?_, hv⟩
+        intro u hu
+        rcases List.mem_cons.mp hu with rfl | hu'
+        · exact ha
+        · exact hpre u hu'
+
+theorem filter_length_le {l : List Nat} {p p' : Nat → Bool} (himp : ∀ x, p' x = true → p x = true) :
+    (l.filter p').length ≤ (l.filter p).length := by
+  induction l with
+  | nil => simp
+  | cons a as ih =>
+    cases h' : p' a
+    · rw [List.filter_cons_of_neg (by simp [h'])]
+      cases h : p a
+      · rw [List.filter_cons_of_neg (by simp [h])]; exact ih
+      · rw [List.filter_cons_of_pos h]; simp only [List.length_cons]; omega
+    · rw [List.filter_cons_of_pos h', List.filter_cons_of_pos (himp a h')]
+      simp only [List.length_cons]; omega
+
+theorem filter_length_lt {l : List Nat} {p p' : Nat → Bool} (himp : ∀ x, p' x = true → p x = true)
+    (hex : ∃ x ∈ l, p x = true ∧ p' x = false) : (l.filter p').length < (l.filter p).length := by
+  induction l with
+  | nil => obtain ⟨x, hx, _⟩ := hex; simp at hx
+  | cons a as ih =>
+    obtain ⟨x, hx, hpx, hp'x⟩ := hex
+    cases h' : p' a
+    · rw [List.filter_cons_of_neg (by simp [h'])]
+      cases h : p a
+      · rw [List.filter_cons_of_neg (by simp [h])]
+        rcases List.mem_cons.mp hx with rfl | hx'
+        · rw [h] at hpx; exact absurd hpx (by simp)
+        · exact ih ⟨x, hx', hpx, hp'x⟩
+      · rw [List.filter_cons_of_pos h]
+        have := filter_length_le (l := as) himp
+        simp only [List.length_cons]; omega
+    · rw [List.filter_cons_of_pos h', List.filter_cons_of_pos (himp a h')]
+      rcases List.mem_cons.mp hx with rfl | hx'
+      · rw [h'] at hp'x; exact absurd hp'x (by simp)
+      · have := ih ⟨x, hx', hpx, hp'x⟩
+        simp only [List.length_cons]; omega
+
+/-- the offline nodes still to be trained -/
+def untr (offl : List Nat) (s : PassSt) : List Nat := offl.filter (fun v => !s.trained.contains v)
+
+theorem stagesLoop_terminates (g : SG) (nodes : List Nat) (hnd : nodes.Nodup) (htopo : TopoL g [] nodes) :
+    ∀ (fuel : Nat) (s : PassSt) (acc : List (List Nat)), SInv g s →
+      (untr (nodes.filter g.offline) s).length < fuel →
+      (∀ v ∈ nodes.filter g.offline, v ∈ (stagesLoop g nodes (nodes.filter g.offline) fuel s acc).2.trained)
+      ∧ (stagesLoop g nodes (nodes.filter g.offline) fuel s acc).1.length
+          ≤ acc.length + (untr (nodes.filter g.offline) s).length := by
+  intro fuel
+  induction fuel with
+  | zero => intro s acc _ h; omega
+  | succ n ih =>
+    intro s acc hinv hfuel
+    simp only [stagesLoop]
+    split
+    · rename_i hall
+      refine ⟨?_, by simp⟩
+      intro v hv
+      simp only [List.all_eq_true, List.contains_eq_mem, decide_eq_true_eq] at hall
+      exact hall v hv
+    · rename_i hall
+      simp only [List.all_eq_true, List.contains_eq_mem, decide_eq_true_eq, not_forall] at hall
+      obtain ⟨v, hv, hvt⟩ := hall
+      have hvm := List.mem_filter.mp hv
+      -- the todo list of this pass
+      generalize htodo : List.filter (fun v => !s.included.contains v) nodes = todo
+      have hvinc : v ∉ s.included := fun h => hvt (hinv.off_inc_trained v h hvm.2)
+      have hvtodo : v ∈ todo := by
+        rw [← htodo, List.mem_filter]
+        exact ⟨hvm.1, by simp [hvinc]⟩
+      have httodo : TopoL g s.included todo := htodo ▸
+        topoL_filter g nodes [] s.included s.included (by simp) (fun _ h => h) htopo
+      obtain ⟨pre, w, post, hl, hpre, hw⟩ :=
+        exists_first (fun u => g.offline u = true ∧ u ∉ s.trained) todo ⟨v, hvtodo, hvm.2, hvt⟩
+      have hwtr : w ∈ (pass g todo { s with sub := [] }).trained := by
+        rw [hl]
+        apply pass_trains_first g pre post w { s with sub := [] } (by rw [← hl]; exact httodo) hpre hw.1 hw.2
+      have hwnodes : w ∈ nodes := by
+        have : w ∈ todo := by rw [hl]; simp
+        rw [← htodo] at this
+        exact (List.mem_filter.mp this).1
+      have hinv' : SInv g (pass g todo { s with sub := [] }) := by
+        apply sinv_pass g _ _ (htodo ▸ hnd.filter _)
+        · intro u hu
+          rw [← htodo] at hu
+          simp only [List.mem_filter, Bool.not_eq_eq_eq_not, Bool.not_true, List.contains_eq_mem,
+            decide_eq_false_iff_not] at hu
+          exact hu.2
+        · exact ⟨hinv.inc_nodup, hinv.tr_nodup, hinv.tr_offline, hinv.off_inc_trained, hinv.inc_closed, hinv.tr_ready⟩
+      have hlt : (untr (nodes.filter g.offline) (pass g todo { s with sub := [] })).length
+          < (untr (nodes.filter g.offline) s).length := by
+        apply filter_length_lt
+        · intro x hx
+          simp only [Bool.not_eq_eq_eq_not, Bool.not_true, List.contains_eq_mem, decide_eq_false_iff_not] at hx ⊢
+          intro hxs
+          exact hx (pass_tr_mono g todo { s with sub := [] } x hxs)
+        · refine ⟨w, List.mem_filter.mpr ⟨hwnodes, hw.1⟩, by simp [hw.2], by simp [hwtr]⟩
+      have := ih (pass g todo { s with sub := [] }) (acc ++ [(pass g todo { s with sub := [] }).sub]) hinv' (by omega)
+      refine ⟨this.1, ?_⟩
+      have h2 := this.2
+      rw [List.length_append, List.length_singleton] at h2
+      omega
+
+/-- **The staging terminates with everything trained.** For every graph whose node list is parents-first (the
+    list a `Model` holds) and every choice of offline nodes, the staged loop of `Model.fit` ends — within the
+    model's fuel, so the `while trained != offlines` loop of the code ends too — with every offline node trained,
+    after at most one pass per offline node. -/
+theorem C06_staging_terminates (g : SG) (nodes : List Nat) (hnd : nodes.Nodup) (htopo : TopoL g [] nodes) :
+    (∀ v ∈ nodes, g.offline v = true → v ∈ (offlineStages g nodes).2.trained)
+    ∧ (offlineStages g nodes).1.length ≤ (nodes.filter g.offline).length := by
+  have h0 : SInv g ⟨[], [], []⟩ :=
+    ⟨List.nodup_nil, List.nodup_nil, by simp, by simp, by simp, by simp⟩
+  have hlen : (untr (nodes.filter g.offline) ⟨[], [], []⟩).length < nodes.length + 2 := by
+    have h1 : (untr (nodes.filter g.offline) ⟨[], [], []⟩).length ≤ (nodes.filter g.offline).length :=
+      List.length_filter_le _ _
+    have h2 : (nodes.filter g.offline).length ≤ nodes.length := List.length_filter_le _ _
+    omega
+  have := stagesLoop_terminates g nodes hnd htopo (nodes.length + 2) ⟨[], [], []⟩ [] h0 hlen
+  refine ⟨fun v hv ho => this.1 v (List.mem_filter.mpr ⟨hv, ho⟩), ?_⟩
+  have h2 := this.2
+  have h1 : (untr (nodes.filter g.offline) ⟨[], [], []⟩).length ≤ (nodes.filter g.offline).length :=
+    List.length_filter_le _ _
+  simp only [List.length_nil, Nat.zero_add] at h2
+  exact Nat.le_trans h2 h1
+
+/-- the premises are satisfiable: the chain 0 → 1 → 2 → 3 with readouts at 1 and 3 is parents-first -/
+example : TopoL demoG [] [0, 1, 2, 3] ∧ [0, 1, 2, 3].Nodup := by
+  refine ⟨?_, by decide⟩
+  simp [TopoL, demoG]
+
+/-- … and the order matters for the *bound*, not for the invariants: listed children-first, the same chain needs
+    more passes than it has offline nodes (the code only ever hands over the sorted list) -/
+example : (offlineStages demoG [3, 2, 1, 0]).1.length > ([3, 2, 1, 0].filter demoG.offline).length := by decide
+
+
+/-- the executable test used by the driver decides `TopoL` -/
+theorem topoLB_iff (g : SG) : ∀ (l inc : List Nat), topoLB g inc l = true ↔ TopoL g inc l := by
+  intro l
+  induction l with
+  | nil => intro inc; simp [topoLB, TopoL]
+  | cons u us ih =>
+    intro inc
+    simp only [topoLB, TopoL, Bool.and_eq_true, List.all_eq_true, List.contains_eq_mem, decide_eq_true_eq, ih]
+
+/-- what the correspondence checks on every model (`topo = true` in the driver's answer) is the hypothesis of
+    `C06_staging_terminates` -/
+theorem C06_staging_terminates_of_test (g : SG) (nodes : List Nat) (hnd : nodes.Nodup)
+    (htest : topoLB g [] nodes = true) :
+    (∀ v ∈ nodes, g.offline v = true → v ∈ (offlineStages g nodes).2.trained)
+    ∧ (offlineStages g nodes).1.length ≤ (nodes.filter g.offline).length :=
+  C06_staging_terminates g nodes hnd ((topoLB_iff g nodes []).mp htest)
